@@ -1,4 +1,6 @@
-// Command harness drives the real irismod application and writes ndjson traces
+// Package drv is the common command-line front end of the per-module harness
+// binaries (one binary per module under harness/cmd/<module>, so that modules
+// build independently).  It drives the real irismod application and writes ndjson traces
 // for the TLA+ trace specifications in /verif/spec.
 //
 //	harness <module> replay  -in behaviours.ndjson -out trace.ndjson [-cfg k=v,...]
@@ -7,31 +9,30 @@
 // A behaviours file has one JSON array of abstract events per line (written by
 // TLC from the module's specification, by a scenario file, or by the random
 // generators in this package — all three go through the same executor).
-package main
+package drv
 
 import (
 	"flag"
 	"fmt"
 	"os"
-	"sort"
 	"strconv"
 	"strings"
 
 	sdk "github.com/cosmos/cosmos-sdk/types"
 )
 
-type driver func(mode string, fl *flags) error
+// Driver runs one mode ("replay", "random", ...) of a module harness.
+type Driver func(mode string, fl *Flags) error
 
-var drivers = map[string]driver{}
-
-type flags struct {
+// Flags are the common command-line flags.
+type Flags struct {
 	In, Out string
 	Seed    int64
 	N, Len  int
 	Cfg     map[string]string
 }
 
-func (f *flags) cfgInt(k string, d int64) int64 {
+func (f *Flags) CfgInt(k string, d int64) int64 {
 	if v, ok := f.Cfg[k]; ok {
 		n, err := strconv.ParseInt(v, 10, 64)
 		if err != nil {
@@ -42,34 +43,30 @@ func (f *flags) cfgInt(k string, d int64) int64 {
 	return d
 }
 
-func (f *flags) cfgStr(k, d string) string {
+func (f *Flags) CfgStr(k, d string) string {
 	if v, ok := f.Cfg[k]; ok {
 		return v
 	}
 	return d
 }
 
-func main() {
-	if len(os.Args) < 3 {
-		var names []string
-		for n := range drivers {
-			names = append(names, n)
-		}
-		sort.Strings(names)
-		fmt.Fprintf(os.Stderr, "usage: harness <module> <mode> [flags]; modules: %v\n", names)
+// Main parses "<mode> [flags]" and runs the driver.
+func Main(module string, d Driver) {
+	if len(os.Args) < 2 {
+		fmt.Fprintf(os.Stderr, "usage: harness-%s <mode> [flags]\n", module)
 		os.Exit(2)
 	}
-	mod, mode := os.Args[1], os.Args[2]
+	mode := os.Args[1]
 	fs := flag.NewFlagSet("harness", flag.ExitOnError)
-	fl := &flags{Cfg: map[string]string{}}
+	fl := &Flags{Cfg: map[string]string{}}
 	var cfg string
 	fs.StringVar(&fl.In, "in", "", "behaviours file")
 	fs.StringVar(&fl.Out, "out", "", "trace output file")
 	fs.Int64Var(&fl.Seed, "seed", 1, "random seed")
 	fs.IntVar(&fl.N, "n", 10, "number of random histories")
-	fs.IntVar(&fl.Len, "len", 30, "events per random history")
+	fs.IntVar(&fl.Len, "len", 30, "events (blocks) per random history")
 	fs.StringVar(&cfg, "cfg", "", "k=v,... driver configuration")
-	fs.Parse(os.Args[3:])
+	fs.Parse(os.Args[2:])
 	for _, kv := range strings.Split(cfg, ",") {
 		if kv == "" {
 			continue
@@ -80,12 +77,6 @@ func main() {
 		}
 		fl.Cfg[p[0]] = p[1]
 	}
-	d, ok := drivers[mod]
-	if !ok {
-		fmt.Fprintf(os.Stderr, "unknown module %q\n", mod)
-		os.Exit(2)
-	}
-	// the SDK's global bech32 config is the default ("cosmos"), as in e2e
 	_ = sdk.GetConfig()
 	if err := d(mode, fl); err != nil {
 		fmt.Fprintln(os.Stderr, "harness error:", err)
